@@ -120,7 +120,7 @@ theorem sink_eligible {P D : MG} (hd : Dom P) (h : ConsistentExt P D) (s : Nat)
   · exact (hd.simple y s hy).1 this
 
 /-- edges of a consistent extension stay inside P's nodes -/
-theorem ext_edge_nodes {P D : MG} (hd : Dom P) (h : ConsistentExt P D) {a b : Nat} (hab : (a, b) ∈ D.dir) :
+theorem ext_edge_nodes {P D : MG} (hd : PWF P) (h : ConsistentExt P D) {a b : Nat} (hab : (a, b) ∈ D.dir) :
     a ∈ P.nodes ∧ b ∈ P.nodes := by
   have : Adj P a b := (h.skel a b).mp (Or.inl hab)
   rcases this with h1 | h1 | h1 | h1
@@ -135,7 +135,7 @@ theorem exists_eligible {P D : MG} (hd : Dom P) (h : ConsistentExt P D) (hne : P
   obtain ⟨s, hs, hsink⟩ := exists_sink D h.acyclic P.nodes hne
   refine ⟨s, hs, sink_eligible hd h s ?_⟩
   intro c hc
-  exact hsink c (ext_edge_nodes hd h hc).2 hc
+  exact hsink c (ext_edge_nodes hd.pwf h hc).2 hc
 
 theorem elim_complete (G : MG) : Dom G → (∃ D, ConsistentExt G D) → ∃ R, elim G = .ok R := by
   unfold elim
